@@ -96,12 +96,14 @@ def run_case(case):
     bound = P if P else None
     eff = lim if lim else (P if P else 65536)
     F = max(eff - 6, 1)
-    sizes = sorted(set(s for s in (1, F - 1, F, F + 1, 3 * F + 2) if 1 <= s <= 200000)) or [1]
+    sizes = sorted(set(s for s in (1, F - 1, F, F + 1, 2 * F + 1, 3 * F + 2) if 1 <= s <= 200000)) or [1]
     keys = []
     a.dul.sent[:] = []
     for n in sizes:
         raw = bytes((i * 17 + 1) & 0xFF for i in range(n))
-        msg = msggen.make('CStoreRQMessage', sop_class=A, data_set=raw)
+        import io
+        src = raw if (n + len(sizes)) % 2 or n <= F else io.BytesIO(raw)
+        msg = msggen.make('CStoreRQMessage', sop_class=A, data_set=src)
         try:
             a.send(msg, 1)
         except Exception as exc:
